@@ -97,8 +97,31 @@
 //!    `delegate(parent, child, [secret], level, None)` is treated as a grant-type op: it creates an access edge
 //!    child -> secret of `level`.  Its outcome is only fixed by the text when the parent is root, holds Admin (every
 //!    reading allows) or holds nothing (every reading denies); otherwise the decision is left unspecified.
+//!  * C14.decision.many_expired  (`mod many`) MANY time-limited grants expiring together: n in {1, 15, 16, 17, 33, 64} Admin grants
+//!                            `grant_with_ttl(root, identity, secret, Admin, ttl)` over 8 identities x 8 secrets (pair i = identity i mod 8,
+//!                            secret (i div 8 + i mod 8) mod 8), ttl in {0 ms, 1 ms} (0 is the smallest TTL the API takes), plus one
+//!                            permanent Read grant of a bystander.  ALL vaults with ttl 1 ms are built first, then the harness sleeps
+//!                            ONCE (25 ms, far past every deadline; an expired grant stays expired, so there is no wall-clock boundary)
+//!                            and only then probes; the vaults with ttl 0 ms (deadline = the grant instant) are built and probed one
+//!                            after the other.  One fresh vault per (n, ttl, probing call, rotation): the FIRST vault call after the
+//!                            deadline is the probing call -- one of get / list("*") / rotate / set (overwrite) / delete / grant (to a third
+//!                            party) -- by grantee pair `start`, then the same call by every other grantee on each of its secrets in
+//!                            rotation order (start in {0, n/2, n-1} for ttl 1 ms, {0, n/4, n/2, 3n/4, n-1} for ttl 0 ms: the first probed
+//!                            pair is an early, a middle and the last granted one; keeping several hundred vaults alive at once is what
+//!                            costs time, hence fewer rotations for the co-resident flavour).  No harness observer runs between the probes.  Clause ("expiring ... removes the ability at
+//!                            once"): every probe is refused (list: names nothing); after the last probe every secret still exists with
+//!                            its original value, no grantee and not the third party holds any permission, the bystander's permanent Read
+//!                            still works.
+//!  * C14.list.distance       (`mod dist`) group-membership chains requester -MEMBER-> g1 -> .. -> gL with the grant (R / W / A, permanent) on
+//!                            gL, L in {h-2, h-1, h, h+1, h+2} for the configured horizon h of three policies (default (1,2,10), tight
+//!                            (1,1,2), (1,2,3)); the requester also holds a direct Read on a second secret and nothing on a third.  For each
+//!                            of the four pattern forms `list("*")`, `list("")`, `list("<prefix of S0>*")`, `list("<exact name of S0>")`:
+//!                            the listed names are exactly the matching names the requester may read (S0 iff L + 1 <= h, the decoy whenever
+//!                            it matches, never the third), and `get` / `get_permission` on S0 take the same decision (`get_permission` ==
+//!                            the attenuated level of the policy) -- one decision for every way of asking.
 //! TTL: only `Duration::ZERO` (expired at the next instant read, `expires_at <= now`, monotonic clock)
-//! and 3600 s (never expires within a run).  No sleeps, no wall-clock boundary.
+//! and 3600 s (never expires within a run).  No sleeps, no wall-clock boundary -- except the single shared sleep of
+//! C14.decision.many_expired described above.
 use crate::fw::{Report, Rng, Tier};
 use graph_engine::{GraphEngine, PropertyValue};
 use serde_json::{json, Value};
@@ -388,16 +411,16 @@ impl View {
 // ---------------------------------------------------------------- real side
 struct Sys { vault: Vault, store: TensorStore, nm: [String; NS], ns: usize }
 
-fn build(cfg: &Cfg) -> Sys {
+fn build(cfg: &Cfg) -> Sys { build_pol(cfg.pol(), cfg.names, cfg.nsec) }
+fn build_pol((a, w, h): (usize, usize, usize), name_class: u8, nsec: u8) -> Sys {
     let store = TensorStore::new();
     let graph = Arc::new(GraphEngine::with_store(store.clone()));
-    let (a, w, h) = cfg.pol();
     let mut c = VaultConfig::default().with_salt([0x14; 16]).with_attenuation(AttenuationPolicy { admin_limit: a, write_limit: w, horizon: h });
     c.argon2_memory_cost = 8; // minimum cost: the KDF is not under contract here
     c.argon2_time_cost = 1;
     c.argon2_parallelism = 1;
     let vault = Vault::new(b"c14-master-key-0123456789abcdef!", graph, store.clone(), c).expect("Vault::new");
-    Sys { vault, store, nm: names(cfg.names), ns: cfg.nsec as usize }
+    Sys { vault, store, nm: names(name_class), ns: nsec as usize }
 }
 fn node_of(g: &GraphEngine, key: &str) -> u64 {
     if let Ok(ns) = g.find_nodes_by_property("entity_key", &PropertyValue::String(key.to_string())) {
@@ -407,8 +430,9 @@ fn node_of(g: &GraphEngine, key: &str) -> u64 {
     p.insert("entity_key".to_string(), PropertyValue::String(key.to_string()));
     g.create_node("Entity", p).expect("create_node")
 }
-fn add_member(g: &GraphEngine, from: u8, to: u8) {
-    let (f, t) = (node_of(g, ENT[from as usize]), node_of(g, ENT[to as usize]));
+fn add_member(g: &GraphEngine, from: u8, to: u8) { add_member_key(g, ENT[from as usize], ENT[to as usize]); }
+fn add_member_key(g: &GraphEngine, from: &str, to: &str) {
+    let (f, t) = (node_of(g, from), node_of(g, to));
     g.create_edge(f, t, "MEMBER", HashMap::new(), true).expect("create_edge MEMBER");
 }
 fn lvl_of(p: Option<Permission>) -> u8 { match p { None => 0, Some(Permission::Read) => 1, Some(Permission::Write) => 2, Some(Permission::Admin) => 3 } }
@@ -954,6 +978,198 @@ fn family_delegate_list(rep: &mut Report) {
     } }
 }
 
+
+// ---------------------------------------------------------------- C14.decision.many_expired
+mod many {
+    use super::{build_pol, lvl_of, short, Sys};
+    use serde_json::{json, Value};
+    use std::time::Duration;
+    use tensor_vault::{Permission, Vault};
+
+    pub const OB: &str = "C14.decision.many_expired";
+    pub const NS: [usize; 6] = [1, 15, 16, 17, 33, 64];
+    pub const TTL_MS: [u64; 2] = [1, 0];
+    pub const CALLS: [&str; 6] = ["get", "list", "rotate", "set", "delete", "grant"];
+    /// one sleep for the whole family: far past every deadline (the longest TTL is 1 ms)
+    pub const WAIT: Duration = Duration::from_millis(25);
+    const IDS: usize = 8;
+    const THIRD: &str = "user:zed";
+    const KEEPER: &str = "user:keeper";
+
+    fn ident(i: usize) -> String { format!("user:m{i}") }
+    fn secret(s: usize) -> String { format!("many/secret-{s:02}") }
+    fn val(s: usize) -> String { format!("original-value-{s:02}") }
+    /// the i-th (identity, secret) pair: all 64 are distinct, every identity and every secret occurs from n = 8 on
+    fn pair(i: usize) -> (usize, usize) { (i % IDS, (i / IDS + i % IDS) % IDS) }
+
+    /// rotation starts: ttl 0 ms (no co-resident vaults needed) gets five, ttl 1 ms three (these vaults all stay alive across the sleep)
+    pub fn starts(n: usize, ttl_ms: u64) -> Vec<usize> {
+        let mut v = if ttl_ms == 0 { vec![0, n / 4, n / 2, 3 * n / 4, n - 1] } else { vec![0, n / 2, n - 1] };
+        v.sort_unstable();
+        v.dedup();
+        v
+    }
+
+    #[derive(Clone, Copy, Debug)]
+    pub struct Case { pub n: usize, pub ttl_ms: u64, pub call: usize, pub start: usize }
+    impl Case {
+        pub fn json(&self, at: &Value) -> Value { json!({"family": "many_expired", "n": self.n, "ttl_ms": self.ttl_ms, "call": CALLS[self.call], "start": self.start, "at": at}) }
+        pub fn parse(v: &Value) -> Result<Case, String> {
+            let n = v["n"].as_u64().ok_or("n")? as usize;
+            if n == 0 || n > IDS * IDS { return Err("n must be 1..=64".into()); }
+            let call = CALLS.iter().position(|c| Some(*c) == v["call"].as_str()).ok_or("call")?;
+            let start = v["start"].as_u64().ok_or("start")? as usize;
+            if start >= n { return Err("start must be < n".into()); }
+            Ok(Case { n, ttl_ms: v["ttl_ms"].as_u64().ok_or("ttl_ms")?, call, start })
+        }
+    }
+
+    /// 8 secrets by root, n time-limited Admin grants by root (root's calls never sweep), one permanent Read of a bystander
+    pub fn setup(c: &Case) -> Sys {
+        let sys = build_pol((1, 2, 10), 1, 2);
+        let v = &sys.vault;
+        for s in 0..IDS { v.set(Vault::ROOT, &secret(s), &val(s)).expect("root creates the secret"); }
+        for i in 0..c.n {
+            let (id, s) = pair(i);
+            v.grant_with_ttl(Vault::ROOT, &ident(id), &secret(s), Permission::Admin, Duration::from_millis(c.ttl_ms)).expect("root grants with a TTL");
+        }
+        v.grant_with_permission(Vault::ROOT, KEEPER, &secret(0), Permission::Read).expect("root grants the bystander");
+        sys
+    }
+
+    /// (verdict, detail) per probe in rotation order, then one entry for the view after the last probe.  Call only after the deadline.
+    pub fn probe(c: &Case, sys: &Sys) -> Vec<(bool, String)> {
+        let v = &sys.vault;
+        let mut out = vec![];
+        for j in 0..c.n {
+            let i = (c.start + j) % c.n;
+            let (id, s) = pair(i);
+            let (who, name) = (ident(id), secret(s));
+            let (refused, shown) = match CALLS[c.call] {
+                "get" => { let r = v.get(&who, &name); (r.is_err(), format!("{:?}", r.map(|x| short(&x)).map_err(|e| short(&e.to_string())))) },
+                "list" => { let r = v.list(&who, "*"); (r.as_ref().map_or(true, Vec::is_empty), format!("{:?}", r.map_err(|e| short(&e.to_string())))) },
+                "rotate" => { let r = v.rotate(&who, &name, "rotated-by-an-expired-grantee"); (r.is_err(), format!("{:?}", r.map_err(|e| short(&e.to_string())))) },
+                "set" => { let r = v.set(&who, &name, "overwritten-by-an-expired-grantee"); (r.is_err(), format!("{:?}", r.map_err(|e| short(&e.to_string())))) },
+                "delete" => { let r = v.delete(&who, &name); (r.is_err(), format!("{:?}", r.map_err(|e| short(&e.to_string())))) },
+                _ => { let r = v.grant(&who, THIRD, &name); (r.is_err(), format!("{:?}", r.map_err(|e| short(&e.to_string())))) },
+            };
+            out.push((refused, format!("{} grants with ttl {} ms all expired; probe #{j} (the {}): {}({who}, {name}{}) on grant pair #{i} -> {shown}; expected: refused",
+                                       c.n, c.ttl_ms, if j == 0 { "FIRST vault call after the deadline".to_string() } else { format!("{}th call", j + 1) },
+                                       CALLS[c.call], if CALLS[c.call] == "grant" { format!(" to {THIRD}") } else if CALLS[c.call] == "list" { " pattern *".to_string() } else { String::new() })));
+        }
+        // only now the observers
+        let mut bad = vec![];
+        for s in 0..IDS {
+            let name = secret(s);
+            match v.current_version(Vault::ROOT, &name).and_then(|n| v.get_version(Vault::ROOT, &name, n)) {
+                Ok(x) if x == val(s) => {},
+                o => bad.push(format!("value({name}) = {:?}, original {:?}", o.map(|x| short(&x)).map_err(|e| short(&e.to_string())), val(s))),
+            }
+            if let Some(p) = v.get_permission(THIRD, &name) { bad.push(format!("get_permission({THIRD}, {name}) = {p:?}")); }
+        }
+        for i in 0..c.n {
+            let (id, s) = pair(i);
+            if let Some(p) = v.get_permission(&ident(id), &secret(s)) { bad.push(format!("get_permission({}, {}) = {p:?} after expiry", ident(id), secret(s))); }
+        }
+        if lvl_of(v.get_permission(KEEPER, &secret(0))) != 1 { bad.push(format!("the bystander's permanent Read became {:?}", v.get_permission(KEEPER, &secret(0)))); }
+        if v.get(KEEPER, &secret(0)).ok() != Some(val(0)) { bad.push("the bystander cannot read through its permanent grant any more".to_string()); }
+        out.push((bad.is_empty(), format!("{} grants with ttl {} ms all expired, {} x {} probed from pair #{}; view after the probes: {}", c.n, c.ttl_ms, c.n, CALLS[c.call], c.start, bad.join("; "))));
+        out
+    }
+
+    pub fn all_cases() -> Vec<Case> {
+        let mut v = vec![];
+        for ttl_ms in TTL_MS { for n in NS { for call in 0..CALLS.len() { for start in starts(n, ttl_ms) { v.push(Case { n, ttl_ms, call, start }); } } } }
+        v
+    }
+}
+
+// ---------------------------------------------------------------- C14.list.distance
+mod dist {
+    use super::{add_member_key, attenuate_spec, build_pol, lvl_of, perm_of, short, LVL_S};
+    use serde_json::{json, Value};
+    use tensor_vault::Vault;
+
+    pub const OB: &str = "C14.list.distance";
+    pub const POLICIES: [(&str, (usize, usize, usize)); 3] = [("default", (1, 2, 10)), ("tight(1,1,2)", (1, 1, 2)), ("h3(1,2,3)", (1, 2, 3))];
+    pub const PATS: [&str; 4] = ["*", "", "prefix*", "exact"];
+    const REQ: &str = "user:req";
+
+    #[derive(Clone, Copy, Debug)]
+    pub struct Case { pub policy: usize, pub chain: usize, pub lvl: u8, pub pat: usize, pub names: u8 }
+    impl Case {
+        pub fn json(&self) -> Value {
+            let names = ["1B", "16B", "utf8"][self.names as usize];
+            json!({"family": "list_distance", "policy": POLICIES[self.policy].0, "chain": self.chain, "lvl": LVL_S[self.lvl as usize], "pat": PATS[self.pat], "names": names})
+        }
+        pub fn parse(v: &Value) -> Result<Case, String> {
+            Ok(Case { policy: POLICIES.iter().position(|p| Some(p.0) == v["policy"].as_str()).ok_or("policy")?,
+                      chain: v["chain"].as_u64().filter(|c| *c <= 40).ok_or("chain (0..=40)")? as usize,
+                      lvl: LVL_S.iter().position(|l| Some(*l) == v["lvl"].as_str()).filter(|l| *l >= 1).ok_or("lvl")? as u8,
+                      pat: PATS.iter().position(|p| Some(*p) == v["pat"].as_str()).ok_or("pat")?,
+                      names: ["1B", "16B", "utf8"].iter().position(|n| Some(*n) == v["names"].as_str()).ok_or("names")? as u8 })
+        }
+    }
+
+    /// Err = the obligation fails for this case
+    pub fn eval(c: &Case) -> Result<String, String> {
+        let pol = POLICIES[c.policy].1;
+        let sys = build_pol(pol, c.names, 3);
+        let v = &sys.vault;
+        let nm = &sys.nm;
+        for (s, name) in nm.iter().enumerate() { v.set(Vault::ROOT, name, &format!("value-of-secret-{s}")).map_err(|e| format!("setup set: {e}"))?; }
+        // requester -> g1 -> .. -> gL; the grant sits on gL (on the requester itself for L = 0)
+        let mut holder = REQ.to_string();
+        for i in 1..=c.chain {
+            let g = format!("group:g{i}");
+            add_member_key(&v.graph, &holder, &g);
+            holder = g;
+        }
+        v.grant_with_permission(Vault::ROOT, &holder, &nm[0], perm_of(c.lvl)).map_err(|e| format!("setup grant: {e}"))?;
+        // decoy: a direct Read on S1 (unless the requester is the holder: then its standing on S1 is the direct Read as well), nothing on S2
+        v.grant_with_permission(Vault::ROOT, REQ, &nm[1], perm_of(1)).map_err(|e| format!("setup grant: {e}"))?;
+        let hops = c.chain + 1;
+        let spec = attenuate_spec(pol, c.lvl, hops);
+        let pattern: String = match c.pat {
+            0 => "*".into(),
+            1 => String::new(),
+            2 => { let n = nm[0].chars().count(); format!("{}*", nm[0].chars().take(n - 1).collect::<String>()) },
+            _ => nm[0].clone(),
+        };
+        let matches = |name: &str| match c.pat { 0 | 1 => true, 2 => name.starts_with(pattern.trim_end_matches('*')), _ => name == pattern };
+        let mut want: Vec<String> = vec![];
+        if spec >= 1 && matches(&nm[0]) { want.push(nm[0].clone()); }
+        if matches(&nm[1]) { want.push(nm[1].clone()); }
+        want.sort();
+        // the list call first (nothing else has run on this vault), then the single-secret observers
+        let listed = v.list(REQ, &pattern).map(|mut l| { l.sort(); l });
+        let got = v.get(REQ, &nm[0]);
+        let perm = lvl_of(v.get_permission(REQ, &nm[0]));
+        let mut why = vec![];
+        match &listed {
+            Ok(l) if *l == want => {},
+            Ok(l) => why.push(format!("list({pattern:?}) = {l:?}, expected {want:?}")),
+            Err(e) => why.push(format!("list({pattern:?}) failed: {e}")),
+        }
+        if got.is_ok() != (spec >= 1) { why.push(format!("get = {:?}, spec {}", got.as_ref().map(|x| short(x)).map_err(|e| short(&e.to_string())), if spec >= 1 { "allowed" } else { "denied" })); }
+        if perm != spec { why.push(format!("get_permission = {}, spec {}", LVL_S[perm as usize], LVL_S[spec as usize])); }
+        if let Ok(l) = &listed { if matches(&nm[0]) && l.contains(&nm[0]) != got.is_ok() { why.push("list and get DISAGREE on the same (requester, secret)".to_string()); } }
+        let head = format!("policy {} (horizon {}), chain of {} MEMBER edges + the grant edge = {hops} hops, grant {} on the last group; requester list({pattern:?})",
+                           POLICIES[c.policy].0, pol.2, c.chain, LVL_S[c.lvl as usize]);
+        if why.is_empty() { Ok(format!("{head} = {want:?}, get / get_permission agree ({})", LVL_S[spec as usize])) } else { Err(format!("{head}: {}", why.join(" | "))) }
+    }
+
+    pub fn all_cases() -> Vec<Case> {
+        let mut v = vec![];
+        for (policy, (_, (_, _, h))) in POLICIES.iter().enumerate() {
+            for chain in h.saturating_sub(2)..=h + 2 {
+                for lvl in 1..=3u8 { for names in [1u8, 2] { for pat in 0..PATS.len() { v.push(Case { policy, chain, lvl, pat, names }); } } }
+            }
+        }
+        v
+    }
+}
+
 // ---------------------------------------------------------------- enumeration
 fn case_json(cfg: &Cfg, ops: &[Op], at: usize) -> Value {
     json!({"cfg": cfg.to_json(), "ops": ops.iter().map(Op::to_json).collect::<Vec<_>>(), "at": at})
@@ -1026,7 +1242,9 @@ fn alpha_pol() -> Vec<Op> {
     a
 }
 
-const OBLIGATIONS: [(&str, &str); 13] = [
+const OBLIGATIONS: [(&str, &str); 15] = [
+    ("C14.decision.many_expired", "Vault::{get,list,rotate,set,delete,grant} as the first calls after n = 1..64 grant_with_ttl grants expired together (GrantTTLTracker::get_expired / Vault::cleanup_expired_grants)"),
+    ("C14.list.distance", "Vault::list (wildcard / empty / prefix / exact pattern) vs Vault::{get,get_permission} at MEMBER distance horizon-2 .. horizon+2"),
     ("C14.decision.ttl_stack", "Vault::{rotate,set,delete,grant*,delegate,revoke,get,list,*_version} as the first call after TWO grant_with_ttl / delegate(ttl) on one (entity, secret) with different lifetimes (security direction)"),
     ("C14.delegate.per_secret", "Vault::delegate(parent, child, [list of secrets], level, ttl) + the child's next call"),
     ("C14.decision.group_ttl", "Vault::{rotate,set,delete,current_version,list_versions,get_version,grant_with_permission,grant_with_ttl,delegate,revoke,get,list} as the first call after grant_with_ttl to a group"),
@@ -1077,6 +1295,11 @@ pub fn run(tier: Tier, seed: u64) -> Report {
         if thorough { format!("all sequences of length <= 2 over the F1 alphabet, plus length <= 2 / <= 3 (same rule) over a {}-op policy alphabet", pola.len()) }
         else { format!("all sequences of length <= 2 over a {}-op policy alphabet (root grants to alice/team/org at R/W/A, every op kind by alice, get by bob, revoke team)", pola.len()) },
         if thorough { " Beyond the exhaustive core: 6000 seeded random sequences of length 6 over the wide alphabet, random chain/policy/name class (not exhaustive)." } else { "" });
+    let domain = format!("{domain} F9 (own identities/secrets, one shared 25 ms sleep after all vaults are built): n in {{1,15,16,17,33,64}} grant_with_ttl(Admin, ttl in {{0 ms, 1 ms}}) grants over 8 identities x 8 secrets + a bystander's permanent Read; \
+         one fresh vault per (n, ttl, probing call in {{get, list *, rotate, set, delete, grant to a third party}}, rotation start in {{0, n/2, n-1}} (ttl 1 ms; all these vaults are alive across the sleep) or {{0, n/4, n/2, 3n/4, n-1}} (ttl 0 ms)): the probing call by every grantee on each of its secrets, the first of them being the \
+         first vault call after the deadline, then the whole view. \
+         F10: requester -MEMBER-> g1 .. -> gL with a permanent R / W / A grant on gL, L in {{h-2..h+2}} for horizon h of the policies default (1,2,10), tight (1,1,2), (1,2,3); decoy secrets (direct Read, no grant); 16-byte and UTF-8 names; \
+         list with the pattern forms *, empty, prefix*, exact name vs get / get_permission.");
     let mut rep = Report::new("c14_vault", &domain, true,
         &["tensor_vault::Vault::{new,set,get,rotate,delete,list,grant,grant_with_permission,grant_with_ttl,revoke,delegate,get_permission,current_version,list_versions,get_version,audit_recent,audit_log}",
           "tensor_vault::AccessController::get_permission_level_verified", "tensor_vault::AttenuationPolicy::attenuate", "tensor_vault::GrantTTLTracker",
@@ -1131,6 +1354,34 @@ pub fn run(tier: Tier, seed: u64) -> Report {
     family_ttl_stack(&mut rep);
     family_delegate_list(&mut rep);
     rep.sample(case_json(&c1, &[pre[0].clone(), Op::Grant { by: ROOT, to: TEAM, s: 0, lvl: 3, ttl: Some(0) }, Op::Rotate { by: ALICE, s: 0, v: 3 }], 2));
+    // F9: many time-limited grants expiring together -- every vault is built first, ONE shared sleep, then the probes
+    {
+        let cases = many::all_cases();
+        // ttl > 0: every vault is built first, then ONE sleep; ttl 0 ms: the deadline is the grant instant, these vaults are built and
+        // probed one after the other (after the sleep as well)
+        let (timed, instant): (Vec<many::Case>, Vec<many::Case>) = cases.iter().partition(|c| c.ttl_ms > 0);
+        let built: Vec<Sys> = timed.iter().map(many::setup).collect();
+        std::thread::sleep(many::WAIT);
+        let book = |rep: &mut Report, c: &many::Case, sys: &Sys| {
+            let res = many::probe(c, sys);
+            let last = res.len() - 1;
+            for (j, (ok, detail)) in res.iter().enumerate() {
+                rep.eval(true);
+                rep.check(many::OB, *ok, &|| c.json(&if j == last { json!("view") } else { json!(j) }), &|| detail.clone());
+            }
+        };
+        for (c, sys) in timed.iter().zip(&built) { book(&mut rep, c, sys); }
+        drop(built);
+        for c in &instant { let sys = many::setup(c); book(&mut rep, c, &sys); }
+        rep.sample(many::Case { n: 17, ttl_ms: 1, call: 0, start: 16 }.json(&json!(0)));
+    }
+    // F10: list (every pattern form) vs get / get_permission around the attenuation horizon
+    for c in dist::all_cases() {
+        let r = dist::eval(&c);
+        rep.eval(true);
+        rep.check(dist::OB, r.is_ok(), &|| c.json(), &|| r.clone().err().unwrap_or_default());
+    }
+    rep.sample(dist::Case { policy: 0, chain: 10, lvl: 3, pat: 0, names: 1 }.json());
 
     if thorough {
         let mut rng = Rng(seed ^ 0xC14);
@@ -1145,6 +1396,25 @@ pub fn run(tier: Tier, seed: u64) -> Report {
 }
 
 pub fn replay(ob: &str, case: &Value) -> Result<String, String> {
+    if case["family"] == "many_expired" {
+        if ob != many::OB { return Err(format!("this case belongs to {}", many::OB)); }
+        let c = many::Case::parse(case)?;
+        let sys = many::setup(&c);
+        std::thread::sleep(many::WAIT);
+        let res = many::probe(&c, &sys);
+        // `at`: a probe index, "view" (the view after all probes) or absent (everything)
+        let pick: Vec<&(bool, String)> = match &case["at"] {
+            Value::Number(j) => res.iter().take(res.len() - 1).skip(j.as_u64().unwrap_or(0) as usize).take(1).collect(),
+            Value::String(_) => res.last().into_iter().collect(),
+            _ => res.iter().collect(),
+        };
+        if pick.is_empty() { return Err("`at` is not a probe of this case".into()); }
+        return match pick.iter().find(|(ok, _)| !ok) { Some((_, d)) => Err(d.clone()), None => Ok(pick.last().map(|x| x.1.clone()).unwrap_or_default()) };
+    }
+    if case["family"] == "list_distance" {
+        if ob != dist::OB { return Err(format!("this case belongs to {}", dist::OB)); }
+        return dist::eval(&dist::Case::parse(case)?);
+    }
     let cfg = Cfg::from_json(&case["cfg"]);
     let ops: Vec<Op> = case["ops"].as_array().ok_or("case.ops missing")?.iter().map(Op::from_json).collect::<Result<_, _>>()?;
     if ops.is_empty() { return Err("empty op sequence".into()); }
